@@ -63,7 +63,9 @@ MCIndependent == [][\A o \in DOMAIN objs : (last'.op \notin {"copy"} /\ last'.o 
 (* behaviour export: initial mapping + the calls with what the spec says they return; the
    mapping after every call rides along so the harness can compare the public view *)
 Emit == (Len(h) = Depth) => PrintT(ToJson([ev |-> h]))
-LogFull == h' = Append(h, [call |-> last', maps |-> [o \in DOMAIN objs' |-> objs'[o].map]])
+NoDs == {}
+LogFull == h' = Append(h, [call |-> last', maps |-> [o \in DOMAIN objs' |-> objs'[o].map],
+                           ds |-> IF last'.op = "resolve" THEN DesignatedSet(objs'[last'.o].map, last'.ct, last'.d) ELSE NoDs])
 FSet        == (\E o \in DOMAIN objs : XSet(o)) /\ LogFull
 FSetDefault == (\E o \in DOMAIN objs : XSetDefault(o)) /\ LogFull
 FDel        == (\E o \in DOMAIN objs : XDel(o)) /\ LogFull
@@ -72,7 +74,7 @@ FUpdate     == (\E o \in DOMAIN objs : XUpdate(o)) /\ LogFull
 FClear      == (\E o \in DOMAIN objs : Clear(o)) /\ LogFull
 FCopy       == (\E o \in DOMAIN objs : Copy(o)) /\ LogFull
 FResolve    == (\E o \in DOMAIN objs : XResolve(o)) /\ LogFull
-FInit == Init /\ h = <<[call |-> last, maps |-> [o \in DOMAIN objs |-> objs[o].map]]>>
+FInit == Init /\ h = <<[call |-> last, maps |-> [o \in DOMAIN objs |-> objs[o].map], ds |-> NoDs]>>
 FNext == FSet \/ FSetDefault \/ FDel \/ FPop \/ FUpdate \/ FClear \/ FCopy \/ FResolve \/ FResolve \/ FResolve
 EmitFull == (Len(h) = Depth + 1) => PrintT(ToJson([ev |-> h]))
 =============================================================================
